@@ -237,7 +237,12 @@ func runJCase(c *jcase, em *Emitter, tags string, queries func(t *vm.Tracer, q f
 			ret, _, err = env.evm.Call(context.Background(), vm.AccountRef(callerAddr), contractAddr, c.mem, 10_000_000, new(big.Int))
 		}
 	}()
-	_ = ret
+	// C12: "with malformed operands it halts the frame like any other exceptional instruction" - an exceptional halt hands no data back
+	haltData := "ok"
+	if err != nil && err != vm.ErrExecutionReverted && len(ret) > 0 {
+		haltData = "exceptional_halt_returned_data:" + hexBytes(ret)
+	}
+	defer func() { em.Op("C12,C03", "S halt-no-data", haltData) }()
 	// keccak table the model needs: preimage pad32(slot) for every vr op
 	kparts := []string{}
 	for _, in := range c.ops {
